@@ -182,6 +182,8 @@ def _params_src(sig):
             parts.append("*")
             star_done = True
         d = "=H_D[%r]" % p["name"] if p.get("default") is not None else ""
+        if p.get("pyNone"):
+            d = "=None"          # (a parameter whose default is the very object None)
         if k == "varPos":
             parts.append("*" + p["name"])
             star_done = True
@@ -398,7 +400,13 @@ def build(case):
                     return "*varargs"
                 return "%s=H_MISSING" % a if (cid % 2 == 0 and ix % 2 == 1) else a
             plain_ = [_p(ix, a) for ix, a in enumerate(args)]
-            sig_ = ", ".join(sorted(plain_, key=lambda t: (t.startswith("**"), t.startswith("*"), "=" in t)))
+            plain_ = sorted(plain_, key=lambda t: (t.startswith("**"), t.startswith("*"), "=" in t))
+            named_ = [t for t in plain_ if not t.startswith("*")]
+            if cid % 3 == 0 and named_ and not any(t.startswith("*") and not t.startswith("**") for t in plain_):
+                # ... and the last named parameter is keyword-only: the library passes everything by keyword
+                at = plain_.index(named_[-1])
+                plain_ = plain_[:at] + ["*"] + plain_[at:]
+            sig_ = ", ".join(plain_)
             lines.append("def fac_%d(%s):" % (cid, sig_))
             lines.append("    return H_fac(%d, dict(%s))" % (cid, ", ".join("%s=%s" % (a, a) for a in args)))
             return "fac_%d" % cid
@@ -411,7 +419,14 @@ def build(case):
         cid = c["id"]
         names = c["args"]
         mand = set(c["mandatory"])
-        params = ", ".join(n if n in mand else "%s=H_MISSING" % n for n in names)
+        plist = [n if n in mand else "%s=H_MISSING" % n for n in names]
+        if cid % 3 == 0 and plist:
+            # the last parameter is keyword-only (with or without a default)
+            order = [t for t in plist if "=" not in t] + [t for t in plist if "=" in t]
+            plist = order[:-1] + ["*", order[-1]]
+        elif any("=" in t for t in plist):
+            plist = [t for t in plist if "=" not in t] + [t for t in plist if "=" in t]
+        params = ", ".join(plist)
         kwd = "dict(%s)" % ", ".join("%s=%s" % (a, a) for a in names)
         if c["coroFn"]:
             lines.append("async def cond_%d(%s):" % (cid, params))
@@ -425,7 +440,10 @@ def build(case):
         kwd = "dict(%s)" % ", ".join("%s=%s" % (a, a) for a in s["args"])
         # for even snapshot ids every parameter after the first has a default of its own (the snapshot is always
         # named explicitly): the capture must still receive the call's values
-        cparams = ", ".join(("%s=H_MISSING" % a) if (sid % 2 == 0 and ix >= 1) else a for ix, a in enumerate(s["args"]))
+        cl_ = [("%s=H_MISSING" % a) if (sid % 2 == 0 and ix >= 1) else a for ix, a in enumerate(s["args"])]
+        if sid % 3 == 0 and len(cl_) >= 2:
+            cl_ = cl_[:-1] + ["*", cl_[-1]]          # keyword-only last parameter
+        cparams = ", ".join(cl_)
         if s["coroFn"]:
             lines.append("async def cap_%d(%s):" % (sid, cparams))
             lines.append("    return await H_acap(%d, %s)" % (sid, kwd))
